@@ -458,6 +458,21 @@ pub fn c16_all_chars(shard: usize, shards: usize, st: &mut Stats) -> Result<(), 
                 c16_string(&buf, st).map_err(|f| (f, buf.clone()))?;
             }
         }
+        // the character in front of, behind and on both sides of something valid (byte order marks,
+        // zero-width and exotic white space, quotes, brackets, ...)
+        for t in ["a1n", "p", "r", "E", "h8", "w"] {
+            for form in 0..3 {
+                buf.clear();
+                if form != 1 {
+                    buf.push(c);
+                }
+                buf.push_str(t);
+                if form != 0 {
+                    buf.push(c);
+                }
+                c16_string(&buf, st).map_err(|f| (f, buf.clone()))?;
+            }
+        }
     }
     Ok(())
 }
